@@ -123,3 +123,113 @@ func verif_harness_C08_decoder_for() {
 		verif_assert(out[i] == stream[i], "C08.detect.bytes-in-order-unaltered")
 	}
 }
+
+// verifBigSrc delivers a fixed stream in reads of at most 32 KiB.
+type verifBigSrc struct {
+	data []byte
+	pos  int
+}
+
+func (s *verifBigSrc) Read(p []byte) (int, error) {
+	if s.pos >= len(s.data) {
+		return 0, io.EOF
+	}
+	n := len(p)
+	if n > 32768 {
+		n = 32768
+	}
+	if n > len(s.data)-s.pos {
+		n = len(s.data) - s.pos
+	}
+	copy(p, s.data[s.pos:s.pos+n])
+	s.pos += n
+	return n, nil
+}
+
+// C08 — a first record larger than the I/O buffers: a concrete stream of
+// 70 000 bytes delivered in reads of at most 32 KiB; each probe needs the first
+// 65 535 / 65 536 / 65 537 / 70 000 bytes (a choice) to decide, and fails like a
+// real decoder on a truncated record if the reader ends before that. The format
+// that accepts is a choice. Detection still finds it, every probe saw the true
+// prefix, and the selected decoder's reader yields the whole stream once.
+//
+//verif:harness unwind=64 replay=none
+func verif_harness_C08_decoder_for_large_record() {
+	if !verif_is_symbolic_run() {
+		return
+	}
+	const N = 70000
+	stream := make([]byte, N)
+	for i := range stream {
+		stream[i] = byte(i % 251)
+	}
+	src := &verifBigSrc{data: stream}
+	need := []int{65535, 65536, 65537, N}[verif_choose("first_record_bytes", 4)]
+	accepting := verif_choose("accepting_format", 3)
+	given := make([][]io.Reader, 3)
+	probe := func(which int) func(io.Reader) Decoder {
+		return func(rd io.Reader) Decoder {
+			given[which] = append(given[which], rd)
+			first := len(given[which]) == 1
+			return func(r *Result) error {
+				if !first {
+					return nil
+				}
+				got := make([]byte, 0, N)
+				buf := make([]byte, 32768)
+				for k := 0; k < 8 && len(got) < need; k++ {
+					want := need - len(got)
+					if want > len(buf) {
+						want = len(buf)
+					}
+					n, err := rd.Read(buf[:want])
+					got = append(got, buf[:n]...)
+					if err != nil {
+						break
+					}
+				}
+				verif_assert(verifSamePrefix(got, stream), "C08.detect.every-probe-sees-the-stream-from-its-first-byte")
+				if len(got) < need {
+					return io.ErrUnexpectedEOF // the record was cut short
+				}
+				if which == accepting {
+					return nil
+				}
+				return io.ErrUnexpectedEOF
+			}
+		}
+	}
+	verif_stub("github.com/tsenart/vegeta/v12/lib.NewDecoder", probe(0))
+	verif_stub("github.com/tsenart/vegeta/v12/lib.NewJSONDecoder", probe(1))
+	verif_stub("github.com/tsenart/vegeta/v12/lib.NewCSVDecoder", probe(2))
+
+	dec := DecoderFor(src)
+	verif_assert(dec != nil, "C08.detect.large-first-record-is-detected")
+	if dec == nil || len(given[accepting]) != 2 {
+		verif_assert(dec == nil, "C08.detect.first-accepting-format-selected")
+		return
+	}
+	final := given[accepting][1]
+	out := make([]byte, 0, N)
+	buf := make([]byte, 32768)
+	for k := 0; k < 16; k++ {
+		n, err := final.Read(buf)
+		out = append(out, buf[:n]...)
+		if err != nil {
+			break
+		}
+	}
+	verif_assert(len(out) == N && verifSamePrefix(out, stream), "C08.detect.nothing-lost-or-duplicated")
+}
+
+func verifSamePrefix(got, stream []byte) bool {
+	if len(got) > len(stream) {
+		return false
+	}
+	for i := range got {
+		if got[i] != stream[i] {
+			return false
+		}
+	}
+	return true
+}
